@@ -142,6 +142,18 @@ def run(chk):
                 chk.fail("loading a MAP machine without a UBM is not refused", ctx)
             except ValueError:
                 pass
+        # load() into an existing machine that carries a prior (ubm) of ANOTHER shape: the file decides, as for a machine without prior
+        if kind == "ml" and i % 3 == 1:
+            wq_, muq_, varq_, sq_ = gen.gen_gmm(r, C + 1, D, "unit")
+            tgt = GMMMachine(n_gaussians=C + 1, trainer="map", ubm=make_gmm(wq_, muq_, varq_))
+            try:
+                tgt.load(path)
+                chk.count(1, key=("machine", "load into a machine with a prior of another shape"))
+                if not (same_bits(tgt.means, m.means) and same_bits(tgt.variances, m.variances) and same_bits(tgt.weights, m.weights)
+                        and same_bits(tgt.log_likelihood(probe), m.log_likelihood(probe))):
+                    chk.fail("load() into a machine that carries a prior of another shape does not give the saved model", ctx)
+            except Exception as e:
+                chk.fail("load() into a machine that carries a prior of another shape raises %r" % (e,), ctx)
         # legacy machine layout = current layout
         if kind == "ml":
             pl = os.path.join(tmpd, "l%d.h5" % i)
@@ -169,6 +181,21 @@ def run(chk):
             if not GMMStats.from_hdf5(p3) == st:
                 chk.fail("re-saved statistics differ (%s)" % how, dict(sctx, how=how))
             os.remove(p3)
+        # one open file handle read several times (constructor-from-file, load into a same-shape and an other-shape object, the caller's own
+        # access): the reader leaves the caller's handle open and positioned as it found it
+        with h5py.File(ps, "r") as hnd:
+            try:
+                r1 = GMMStats.from_hdf5(hnd)
+                r2 = GMMStats(C, D)
+                r2.load(hnd)
+                r3 = GMMStats(C + 1, D + 2)
+                r3.load(hnd)
+                n_direct = np.asarray(hnd["n"][()])
+                chk.count(1, key=("stats", "one handle, several reads"))
+                if not (r1 == st and r2 == st and r3 == st and same_bits(n_direct, st.n)):
+                    chk.fail("reading the same open statistics file several times gives different statistics", sctx)
+            except Exception as e:
+                chk.fail("reading the same open statistics file a second time raises %r (the reader must not close / consume the caller's handle)" % (e,), sctx)
         # loading into an existing container of the SAME shape that is not pristine: its arrays hold a narrower type (hard integer counts,
         # single precision) and are referenced by the caller; the loaded statistics are the file's, the caller's arrays are not written to
         used = GMMStats(C, D)
